@@ -98,7 +98,7 @@ pub fn run(run: &mut Run) {
             continue;
         }
         let setup = ClusterSetup { nodes: *nn, strategy, init: vec!["set k v0".into(), "set k v0b".into(), "set c 5".into()] };
-        let cfg = NetCfg { max_states: if quick { 3000 } else { 30000 }, max_path: 120, budget: Duration::from_secs(if quick { 5 } else { 40 }), workers: crate::util::workers() };
+        let cfg = NetCfg { max_states: if quick { 3000 } else { 30000 }, max_path: 120, budget: Duration::from_secs(if quick { 5 } else { 40 }), workers: crate::util::workers(), by_deviations: false };
         let mk = || build(&setup, sc);
         let on_state = |w: &NetWorld, _p: &[T]| judge(w, false);
         let on_q = |w: &NetWorld, _p: &[T]| judge(w, true);
